@@ -661,7 +661,9 @@ fn many_includes_leg(ev: &mut Ev) {
 pub fn spanning_cases() -> Vec<(&'static str, Vec<(&'static str, String)>, String, &'static str)> {
     let mut v = vec![];
     let mut add = |tag: &'static str, main: &str, inc: &str, sig: &'static str| {
-        let pasted = main.replace(".include \"part.inc\"\n", inc);
+        // pasting puts the *lines* of the file in place of the directive: a last line without a line end is still a line
+        let inc_lines = if inc.ends_with('\n') { inc.to_string() } else { format!("{}\n", inc) };
+        let pasted = main.replace(".include \"part.inc\"\n", &inc_lines);
         v.push((tag, vec![("main.asm", main.to_string()), ("part.inc", inc.to_string())], pasted, sig));
     };
     // a taken branch spans the boundary: nothing is being skipped when the file ends
@@ -672,6 +674,11 @@ pub fn spanning_cases() -> Vec<(&'static str, Vec<(&'static str, String)>, Strin
     add("else-in-the-included-file", ".if 1\n.dw 1\n.include \"part.inc\"\n.dw 3\n.endif\n.dw 4\n", ".dw 2\n.else\n.dw 9\n", "conditional-skip-crosses-end-of-file");
     // (an .include line that itself stands in an unselected branch is never performed — C08 — so
     //  "closed in a file included from the skipped part" is not a case of this property)
+    add("untaken-nested-ifs-opened-in-the-included-file", ".dw 1\n.include \"part.inc\"\n.dw 3\n.endif\n.dw 4\n.endif\n.dw 5\n", ".if 0\n.if 1\n.dw 2\n", "conditional-skip-crosses-end-of-file");
+    add("untaken-if-opened-in-the-included-file-else-in-the-including-one", ".dw 1\n.include \"part.inc\"\n.dw 3\n.else\n.dw 4\n.endif\n.dw 5\n", ".if 0\n.dw 2\n", "conditional-skip-crosses-end-of-file");
+    add("untaken-elif-chain-across-the-boundary", ".equ c11_k = 2\n.dw 1\n.include \"part.inc\"\n.dw 3\n.elif c11_k == 2\n.dw 4\n.else\n.dw 5\n.endif\n.dw 6\n", ".if c11_k == 1\n.dw 2\n", "conditional-skip-crosses-end-of-file");
+    add("file-ends-right-after-endif", ".dw 1\n.include \"part.inc\"\n.dw 3\n", ".if 1\n.dw 2\n.else\n.dw 9\n.endif", "conditional-crosses-end-of-file");
+    add("file-ends-right-after-endif-of-untaken", ".dw 1\n.include \"part.inc\"\n.dw 3\n", ".if 0\n.dw 2\n.endif", "conditional-crosses-end-of-file");
     // an .include that stands in a macro body is performed where the macro is called: the file is
     // looked for by the same rules (here: next to the including file)
     add("include-inside-a-macro-body", ".macro inc_m\n.include \"part.inc\"\n.endm\n.dw 1\ninc_m\n.dw 3\ninc_m\n", ".dw 2\n", "include-in-macro-body");
